@@ -3,7 +3,8 @@ import Dcg.Proofs.SemSound
 import Dcg.Proofs.SemDump
 import Dcg.Proofs.SemEnv
 import Dcg.Proofs.SemReport
+import Dcg.Proofs.SemInherit
 /-
 Helper lemmas for C03 / C04 / C14 (umbrella): SemBase (three-valued logic, association lists, the
-constraint tables as a decidable side condition), SemValid (C03), SemOpts (C14), SemSound (C04).
+constraint tables as a decidable side condition), SemValid (C03), SemOpts (C14), SemSound (C04), SemInherit (C04: `required` naming an inherited member).
 -/
